@@ -52,8 +52,18 @@ def args():
 
 
 def emit(t0, evaluations, distinct, rule, samples, failures, domain, **extra):
+    # the listed failures are what the check maps onto known findings / reports: EVERY distinct (contract, obligation) must be
+    # represented (a plain failures[:60] hid new names behind the known ones), then up to 60 further examples
+    reps, rest, seen = [], [], set()
+    for f in failures:
+        key = (f.get("contract"), f.get("obligation")) if isinstance(f, dict) else None
+        if key not in seen:
+            seen.add(key)
+            reps.append(f)
+        else:
+            rest.append(f)
     out = dict(evaluations=int(evaluations), distinct_nontrivial=int(distinct), rule=rule, samples=samples[:8], domain=domain,
-               failures=failures[:60], n_failures=len(failures), wall_s=round(time.time() - t0, 2))
+               failures=reps[:4000] + rest[:60], n_failures=len(failures), n_failing_names=len(seen), wall_s=round(time.time() - t0, 2))
     out.update(extra)
     print(json.dumps(out, default=_js))
 
